@@ -195,6 +195,13 @@ def roundtrip(ctx):
         dur = rng.choice([20, 60, 7.5, 12.75, 20.5]) if tps <= 128 else (rng.choice([6, 2.5]) if tps <= 4096 else rng.choice([1, 0.75]))
         params = {"ticks_per_second": tps, "duration": dur, "waiting_seconds_mean": rng.choice([0.5, 1.3, 2.0]),
                   "num_pipelines": rng.randint(1, 3), "random_seed": rng.randint(0, 10 ** 6)}
+        if it < 2:
+            # the run's very last tick: durations and tick rates for which duration / (1 / rate) and duration * rate are different floats (the
+            # quotient falls one ulp short of the whole number), with a generator dense enough to emit on the last tick — the trace must be as
+            # long as the run
+            dur, tps = [(1, 123), (3, 75), (1, 1230), (7, 75)][(it + ctx.seed) % 4]
+            params.update({"ticks_per_second": tps, "duration": dur, "waiting_seconds_mean": 1.5 / tps, "num_pipelines": 2})
+            ctx.sit("gentrace_roundtrip_dense_to_the_last_tick")
         with tempfile.TemporaryDirectory() as td:
             pf = os.path.join(td, "p.toml")
             with open(pf, "w") as f:
